@@ -6,6 +6,23 @@ props = [json.loads(l) for l in open(os.path.join(V, 'properties.jsonl'))]
 
 # id -> (technique, level text, level note, design ref)
 CLAIMED = {
+ 'C07': ("property-based generation of modules with garbage (proptest), independent reachability analysis on the emitted binary + byte-equality for idempotence",
+         "After parse>gc>emit, a reachability analysis written from the property text (roots: exports, start, active data, active elements of imported tables, declared elements) must cover every entity and type of the output, with the single documented memory residue; gc twice and gc of the gc output must reproduce the same bytes.",
+         "Raw custom sections add no roots; wasmparser decodes the output.",
+         "DESIGN.md §4 C07, §3.4"),
+ 'C15': ("model-based generation: typed model tree + independent construction plan (proptest), flattening oracle",
+         "A model tree of stack-neutral statements with nested block/loop/if-else and branches is realised through the builder API by a generated plan (insertion order, append vs *_at, closure-nested vs dangling sequences attached before/after filling, fills deferred to the end); the decoded emitted body must equal the model's in-order flattening including branch depths, parameter positions and an injective, type-correct local slot map.",
+         "Statements are restricted to a typed family that is valid by construction (i32 arithmetic, locals, branches to value-less labels).",
+         "DESIGN.md §4 C15"),
+ 'C16': ("property-based generation of instruction trees (parsed and builder-made), reference-walk oracle; child process on a 256 KiB stack for depth 10^5",
+         "Recording visitors (default hooks and overridden per-instruction hooks, immutable and mutable) are compared with a recursive reference walk using a hand-written operand table: event sequence for dfs_in_order, per-instruction id multisets for both traversals; non-recursion is decided by traversing depth-10^5 trees on a 256 KiB thread stack in a child process (death by signal = violation).",
+         "The operand table is written by hand from the Instr field documentation.",
+         "DESIGN.md §4 C16"),
+ 'C17': ("exhaustive enumeration of operation sequences (small scope) + random long sequences (proptest), map-based reference model",
+         "All add/delete sequences up to length 6 (quick) / 7 (thorough) over a 7-symbol alphabet are run against each of the 10 public collections in lock-step with a model; after every step all ids ever issued, iteration, len and lookups are compared. Exhaustive within that bound; random sequences up to length 60 beyond it.",
+         "'reported as absent' means a panic or None/Err.",
+         "DESIGN.md §4 C17"),
+
  'C05': ("mutation-based and random byte-string generation (proptest) with a differential oracle against wasmparser::Validator; child-process isolation for stack overflow",
          "Random byte strings, byte- and structure-level mutants of generated and corpus modules, truncations, and deep-nesting modules are parsed under both configurations; any unwind is a violation, and walrus's accept/reject decision must equal the reference validator's under the feature set walrus documents for that configuration. Deep inputs are parsed (and emitted) on the 8 MiB main-thread stack of a child process: death by signal is a violation, a watchdog expiry is inconclusive. 'Never hangs' is only observable as that watchdog.",
          "The supported feature set is re-stated in the harness (optable::walrus_features); wasmparser is the arbiter of validity; OOM is not in scope.",
